@@ -263,7 +263,10 @@ func inlinable(fd *ast.FuncDecl, obj *types.Func, info *types.Info) bool {
 		case *ast.FuncLit:
 			return false
 		case *ast.LabeledStmt:
-			ok = false
+			// labels of earlier expansions are unique by construction
+			if !strings.HasPrefix(x.Label.Name, "L_inl") {
+				ok = false
+			}
 		case *ast.DeferStmt:
 			top := false
 			for _, st := range fd.Body.List {
@@ -709,7 +712,7 @@ func expandSite(fset *token.FileSet, pk *packages.Package, tf *token.File, src [
 	line(callerFile, callLine)
 	evalInto := func(tmp string, arg ast.Expr, ptype types.Type, ptext ast.Expr) bool {
 		tv, ok := info.Types[arg]
-		if ok && tv.Type != nil && types.Identical(tv.Type, ptype) {
+		if ok && tv.Type != nil && tv.Value == nil && types.Identical(tv.Type, ptype) {
 			if b, isB := tv.Type.(*types.Basic); !isB || b.Info()&types.IsUntyped == 0 {
 				fmt.Fprintf(&sb, "%s := %s; ", tmp, nodeText(tf, src, arg))
 				return true
@@ -727,12 +730,26 @@ func expandSite(fset *token.FileSet, pk *packages.Package, tf *token.File, src [
 			return "", "", false
 		}
 		fld := cal.fd.Recv.List[0]
-		// the receiver expression must already have the declared receiver type (no implicit & or *)
-		if tv, ok := info.Types[sel.X]; !ok || !types.Identical(tv.Type, sig.Recv().Type()) {
+		// the receiver expression has the declared receiver type, or the compiler takes its address /
+		// dereferences it implicitly
+		tv, ok := info.Types[sel.X]
+		if !ok {
 			return "", "", false
 		}
+		rexpr := nodeText(tf, src, sel.X)
+		switch {
+		case types.Identical(tv.Type, sig.Recv().Type()):
+		case types.Identical(types.NewPointer(tv.Type), sig.Recv().Type()) && tv.Addressable():
+			rexpr = "&(" + rexpr + ")"
+		default:
+			if pt, isPtr := tv.Type.Underlying().(*types.Pointer); isPtr && types.Identical(pt.Elem(), sig.Recv().Type()) {
+				rexpr = "*(" + rexpr + ")"
+			} else {
+				return "", "", false
+			}
+		}
 		tmp := "a_recv" + sfx
-		fmt.Fprintf(&sb, "%s := %s; _ = %s; ", tmp, nodeText(tf, src, sel.X), tmp)
+		fmt.Fprintf(&sb, "%s := %s; _ = %s; ", tmp, rexpr, tmp)
 		if len(fld.Names) == 1 && fld.Names[0].Name != "_" {
 			binds = append(binds, bind{fld.Names[0].Name, tmp})
 		}
@@ -758,7 +775,10 @@ func expandSite(fset *token.FileSet, pk *packages.Package, tf *token.File, src [
 			ai++
 		}
 	}
-	fmt.Fprintf(&sb, "%s: switch { default: ", label)
+	if len(rets) > 0 {
+		fmt.Fprintf(&sb, "%s: ", label)
+	}
+	sb.WriteString("switch { default: ")
 	for _, b := range binds {
 		fmt.Fprintf(&sb, "%s := %s; _ = %s; ", b.name, b.tmp, b.name)
 	}
